@@ -18,7 +18,8 @@ For EVERY table `T`, item list, fuel-free:
 * witnesses (`Gen.tables`, replayed on the real code by `fv/cosim_one2.py`):
   `unnamed_program_two_rounds_witness`, `interface_blank_not_reparsable_witness` (the full statement of
   (a) is still false),
-  `single_typing_decl_dropped_witness` (the exception of (b) is real), `typing_twice_assertion_witness`;
+  `single_typing_decl_dropped_witness` (the exception of (b) is real), `typing_twice_assertion_witness`,
+  `typed_function_in_interface_witness` (valid program rejected);
   regression witnesses for repaired defects: `enum_roundtrip_regression` (cc438ae),
   `typing_decl_kept_regression` (dbd6721)
 
@@ -243,6 +244,25 @@ example : ∃ t', parse1 Gen.tables true (items Gen.tables (print1 Gen.tables (t
     ∧ print1 Gen.tables t' = print1 Gen.tables (treeOf exEnum) :=
   print1_parse1_fixpoint_partial Gen.tables true exEnum (treeOf exEnum)
     (ok_treeOf exEnum (by decide +kernel)) (by decide +kernel) (by decide +kernel)
+
+/-- defect of fparser1 (open, mirrored): a FUNCTION header typed with a derived type is read everywhere
+    except as an interface body: `subroutine s / interface g / type(t) function f(x) / end function f /
+    end interface / end subroutine s` → "no parse pattern" in the Interface block (its class list offers
+    the intrinsic type declarations only, `Gen.typed_header_classes`); with `integer function f(x)` the
+    same source is accepted. -/
+def exIfaceFn (needs : List String) : List Item :=
+  [mk 1 "subroutine s" (oname := "s"), mk 2 "interface g" (oname := "g"),
+   { mk 3 "function f(x)" (oname := "f") with typedHdr := true, needs := needs.map cid },
+   mk 4 "end function f", mk 5 "end interface", mk 6 "end subroutine s"]
+theorem typed_function_in_interface_witness :
+    showRes (parse1 Gen.tables true (exIfaceFn ["TypeStmt"])) = "nopattern 3 Interface"
+    ∧ showRes (parse1 Gen.tables true (exIfaceFn ["Class"])) = "nopattern 3 Interface"
+    ∧ showRes (parse1 Gen.tables true (exIfaceFn ["Integer"])) = "ok (1 (2 (3 4) 5) 6)"
+    ∧ showRes (parse1 Gen.tables true (exIfaceFn ["SubprogramPrefix", "Character"])) = "ok (1 (2 (3 4) 5) 6)"
+    ∧ showRes (parse1 Gen.tables true
+        [{ mk 1 "function f(x)" (oname := "f") with typedHdr := true, needs := [cid "TypeStmt"] },
+         mk 2 "end function f"]) = "ok (1 2)" := by
+  decide +kernel
 
 /-- C19 defect (open): a generic spec written with a blank, `interface assignment (=)` … `end interface`:
     printed `END INTERFACE assignment (=)`; the second round compares the END name after removing blanks
